@@ -4,6 +4,9 @@ import json, os
 V = os.path.dirname(os.path.dirname(os.path.abspath(__file__)))
 CHECKS = {
  # id: (engine, technique, level text, level note, design ref)
+ "C03": ("E1-shape", "complete enumeration of the finite tagging configuration space executed on the real compiler vs. X.680 31.2.7/25.3/29.2 reference",
+         "The whole product default{none,EXPLICIT,IMPLICIT,AUTOMATIC} x keyword x class x number{0,5,300} x 10 positions (incl. nesting depth 2-3 and OF elements) x 6 tagged type kinds (7 k points) and the automatic-tagging predicate (192 points) is compiled point by point and the tag/automatic_tags attributes compared with the X.680 rule; thorough adds all ordered pairs of occurrences at different positions (82 k modules) to show independence. Complete, not sampled.",
+         "Attribute-level observation (syn); what rasn-derive makes of an attribute on the wire is trusted. For CHOICE/open-typed components and delegate newtypes over a referenced CHOICE/ANY only (class, number) are compared because rasn applies explicit tagging to those itself.", "§4 C03"),
  "C04": ("E1-shape", "bounded-exhaustive enumeration of subtype-constraint expression trees executed on the real compiler vs. set-semantics + PER-visible fold reference",
          "All subtype expressions with <=3 operands over a 32-operand alphabet (singles/ranges on {MIN,-3,0,2,5,9,MAX}) x {|,^,EXCEPT,ALL EXCEPT} x marker x 1..2 serial constraints x 6 constrainable types x {assignment, component, constrained parent, value-reference endpoints, named-number endpoints} (1.0 M cases thorough, 0.32 M quick) are compiled by the real compiler; the emitted value()/size()/Fixed*String bound is compared with (i) exact set semantics on a 19-point universe (soundness) and (ii) the interval fold under X.680 precedence (equality), plus marker<=>extensible. Complete inside the bound.",
          "Reference: 150 lines of bit-set / interval algebra, self-tested against brute force at start-up; syn projection trusted. Endpoints outside the 7-point alphabet, >3 operands, parenthesised sub-expressions are not covered. Mixed-marker serial constraints accept either flag (X.680 G.4.2.3 ambiguity).", "§4 C04"),
